@@ -1,0 +1,10 @@
+//go:build verif
+
+package statsdaemon
+
+import "github.com/atlassian/gostatsd/pkg/backends/sender"
+
+// VerifSetConnFactory replaces the dialer of the client's sender. Must be called before Run.
+func (client *Client) VerifSetConnFactory(f sender.ConnFactory) {
+	client.sender.ConnFactory = f
+}
